@@ -10,3 +10,4 @@ import Cutadapt.Properties.C01
 #print axioms Cutadapt.C01.matchTo_errors_is_distance
 #print axioms Cutadapt.C01.exAdapter_wf
 #print axioms Cutadapt.C01.noindel_needs_rate_le_one
+#print axioms Cutadapt.C01.generated_full_tolerance
